@@ -185,6 +185,19 @@ Theorem C09_chunkdur_negative : forall fs st newTime newNr newDur C cs,
 Proof. exact chunkSegment_negative. Qed.
 Print Assumptions C09_chunkdur_negative.
 
+(** The caller with the proposed guard ([if chunkDur <= 0] -> 400, proposed_fixes/C09-chunkdur-guard.diff):
+    identical on the property's domain, refuses every chunk duration <= 0 and cannot panic for
+    any chunk duration below 2^32 ticks. *)
+Theorem C09_guard_same_on_domain : forall g fs st newTime newNr newDur C,
+  0 < C -> chunksOf g fs st newTime newNr newDur C = chunkSegment fs st newTime newNr newDur C.
+Proof. exact chunksOf_domain. Qed.
+Print Assumptions C09_guard_same_on_domain.
+
+Theorem C09_guard_safe : forall fs st newTime newNr newDur C,
+  C < two32 -> is_panic (chunksOf true fs st newTime newNr newDur C) = false.
+Proof. exact chunksOf_guarded_safe. Qed.
+Print Assumptions C09_guard_safe.
+
 (** Non-vacuity: 2 s segment of 8 samples, availabilityTimeOffset 1.25 s at timescale 1000
     (chunkDur 750): chunks of 3, 3 and 2 samples; a clock ticking 7 ms per step with an exact
     sleep writes them 763, 1512 and 2261 ms after a request made at the start of the segment
